@@ -6,6 +6,7 @@ import (
 	"github.com/named-data/ndnd/dv/nfdc"
 	"github.com/named-data/ndnd/dv/table"
 	enc "github.com/named-data/ndnd/std/encoding"
+	"github.com/named-data/ndnd/std/ndn"
 	ndn_sync "github.com/named-data/ndnd/std/sync"
 )
 
@@ -30,3 +31,15 @@ func (dv *Router) VerifOnPfxSyncUpdate(nodeId enc.Name, high uint64) {
 
 // VerifPrefixDataFetch runs one fetch decision for the prefix data of a router.
 func (dv *Router) VerifPrefixDataFetch(nodeId enc.Name) { dv.prefixDataFetch(nodeId) }
+
+// VerifAdvertSyncOnInterest delivers an Advertisement Sync Interest (as the engine does for the
+// active / passive sync prefixes).
+func (dv *Router) VerifAdvertSyncOnInterest(args ndn.InterestHandlerArgs, active bool) {
+	dv.advertSyncOnInterest(args, active)
+}
+
+// VerifProcessPrefixData processes a fetched prefix Data packet (as the Express callback of
+// prefixDataFetch does).
+func (dv *Router) VerifProcessPrefixData(data ndn.Data, router *table.PrefixTableRouter) {
+	dv.processPrefixData(data, router)
+}
